@@ -180,7 +180,7 @@ def build_repeat_part(n, repeats=(), endings=(), dacapo=None, fine=None, tie=Non
     return part
 
 
-def oracle(n, repeats, endings, dacapo, fine, mode, segno=None, dalsegno=None, tocoda=None, coda=None):
+def oracle(n, repeats, endings, dacapo, fine, mode, segno=None, dalsegno=None, tocoda=None, coda=None, repeats_after_leap=True):
     """measure play order, from the notation.  mode 'max': each repeated section the notated number of times (2, or the highest
     ending number) with the matching ending; da capo honoured once, repeats taken again after the leap, stop at Fine after it.
     mode 'min': every section once, of a group of endings only the last one, no leap."""
@@ -205,13 +205,15 @@ def oracle(n, repeats, endings, dacapo, fine, mode, segno=None, dalsegno=None, t
             encl = [rep for rep in repeats if rep[0] <= i and any(rep[0] <= vs <= rep[1] for (_, vs, _) in endings)]
             rep = max(encl, key=lambda r: r[0]) if encl else None
             cur = count.get(rep, 1) if rep else 1
+            if after_dc and not repeats_after_leap:
+                cur = max(allnums)  # after the leap every section once, with its last ending
             if cur not in vol[i]:
                 i += 1
                 continue
         seq.append(i)
         if fine is not None and i == fine and after_dc:
             break
-        if i in rep_of_end:
+        if i in rep_of_end and not (after_dc and not repeats_after_leap):
             rep = rep_of_end[i]
             if count[rep] < total[rep]:
                 count[rep] += 1
@@ -251,6 +253,8 @@ def grammar(tier):
         ("three_repeats_six_segments_last_one_repeated", dict(n=6, repeats=[(1, 1), (3, 3), (5, 5)])),
         ("repeat_fine_dacapo_variants", dict(n=3, repeats=[(0, 0)], dacapo=2, fine=1)),
         ("dacapo_without_fine", dict(n=3, dacapo=2)),
+        ("volta_then_dacapo_fine", dict(n=5, repeats=[(0, 1)], endings=[("1", 1, 1), ("2", 2, 2)], dacapo=4, fine=2)),
+        ("two_repeats_then_dalsegno_fine", dict(n=5, repeats=[(1, 1), (2, 2)], segno=1, dalsegno=4, fine=3)),
         ("dalsegno_at_the_end", dict(n=4, segno=1, dalsegno=3)),
         ("dalsegno_al_fine", dict(n=4, segno=1, dalsegno=3, fine=2)),
         ("dacapo_followed_by_more_music", dict(n=4, dacapo=2)),
@@ -312,6 +316,15 @@ def bounded(b):
             ok2, un2 = b.guard("unfold/maximal_no_exception", case, lambda: sc.unfold_part_maximal(part, update_ids=upd))
             if ok2:
                 b.case("unfold/second_call_same_result", G.fingerprint(un2) == G.fingerprint(un), case, "second unfolding differs", nontrivial=nontriv)
+        if jump_at is not None and not mid_jump:
+            # ignore_leaps=False (documented): after the da capo / dal segno the repeats are not taken again
+            case = {"shape": name, "ignore_leaps": False}
+            part = mk()
+            ok, un = b.guard("unfold/maximal_no_exception", case, lambda: sc.unfold_part_maximal(part, update_ids=False, ignore_leaps=False))
+            if ok:
+                seq, _ = _measure_seq(un)
+                want = oracle(n, reps, ends, kw.get("dacapo"), kw.get("fine"), "max", repeats_after_leap=False, **nav)
+                b.case("unfold/maximal_play_order", seq == want, case, "measures played %r, with repeats not taken after the leap the notation says %r" % (seq, want), nontrivial=nontriv)
         case = {"shape": name}
         if mid_jump:
             case["jump_mark_followed_by_more_music"] = True
@@ -386,4 +399,15 @@ def _check_copy(b, case, orig, un, want, upd, nontriv):
         for q in (nt.tie_next, nt.tie_prev):
             if q is not None and (q.tie_prev is not nt and q.tie_next is not nt):
                 ok, what = False, "one-sided tie link in the copy"
+    # both directions of every slur / tuplet link: the copied range object names its notes, and those notes list that very object
+    for rng, sa, ea in [(x, "slur_starts", "slur_stops") for x in un.iter_all(sc.Slur)] + [(x, "tuplet_starts", "tuplet_stops") for x in un.iter_all(sc.Tuplet)]:
+        a, z = rng.start_note, rng.end_note
+        if a is None or z is None or id(a) not in inside or id(z) not in inside:
+            ok, what = False, "%s in the copy has start/end note %r/%r outside the copy" % (type(rng).__name__, getattr(a, "id", None), getattr(z, "id", None))
+        elif not any(x is rng for x in getattr(a, sa)) or not any(x is rng for x in getattr(z, ea)):
+            ok, what = False, "%s %s..%s: the notes' %s/%s do not list it (%r / %r)" % (type(rng).__name__, a.id, z.id, sa, ea, getattr(a, sa), getattr(z, ea))
+    for nt in notes:
+        for attr in ("slur_starts", "slur_stops", "tuplet_starts", "tuplet_stops"):
+            if any(x is None or id(x) not in inside for x in getattr(nt, attr)):
+                ok, what = False, "note %s: %s holds %r (lost or outside the copy)" % (nt.id, attr, getattr(nt, attr))
     b.case("unfold/references_stay_inside_the_copy", ok, case, what, nontrivial=nontriv)
